@@ -2,6 +2,7 @@ import OmbottModel.Model.Multipart
 import OmbottModel.Model.MultipartSpec
 import OmbottModel.Gen.Multipart
 import OmbottModel.Lemmas.MultipartEatData
+import OmbottModel.Lemmas.MultipartWF
 /-!
 C06 — Multipart parsing is independent of how the body is split into reads.
 Property theorems only; helper lemmas live in `Lemmas/Multipart*.lean`.
@@ -59,5 +60,144 @@ theorem eatData_refines_R (boundary chunk : Bytes) (base m : Nat) (hb : CR ∉ b
     eatData (delim boundary) chunk base (trestOf (delim boundary) m) =
       .ok (renderScan (delim boundary) base (scan (delim boundary) m (chunk.drop base))) :=
   eatData_refines (token_no_border boundary hb).1 chunk base m hm
+
+/-! ### the post-delimiter machine -/
+
+/-- `HeadersEaeter.eat` (the CRLF or the closing `--` after a delimiter, then the header block up
+to CRLFCRLF, with `headers_end_expected` carried across chunks and `end_headers_patt.search`
+inside a chunk) agrees with the byte-at-a-time phases of the reference machine wherever those
+are defined: same end position of the header block, same carried state, `StopMarkupException`
+exactly at the closing delimiter.  For arbitrary chunk contents.  (`base = 0` when a partial
+CRLFCRLF is pending is how the source uses it: that state only exists at the start of a chunk.) -/
+theorem eater_refines_R (ph : Phase)
+    (hph : ph = .afterDelim ∨ ph = .afterCR ∨ ph = .afterHyphen ∨ ∃ k, k ≤ 3 ∧ ph = .headers k)
+    (chunk : Bytes) (base : Nat) (hb : ∀ k, ph = .headers k → 0 < k → base = 0) :
+    match runH ph (chunk.drop base) with
+    | .undef => True
+    | .stop => eat (eaterOf ph) chunk base = .error .stopMarkup
+    | .done j => eat (eaterOf ph) chunk base =
+        .ok (eaterOf .afterDelim, some (((base + j : Nat) : Int) - 4))
+    | .more ph' => eat (eaterOf ph) chunk base = .ok (eaterOf ph', none) := by
+  have hph' : HdrPhase ph := by
+    rcases hph with rfl | rfl | rfl | ⟨k, hk, rfl⟩
+    · trivial
+    · trivial
+    · trivial
+    · exact hk
+  have := eat_refines ph hph' chunk base hb
+  cases h : runH ph (chunk.drop base) <;> rw [h] at this <;> exact this
+
+/-! ### the property -/
+
+/-- **Refinement.** Whatever way an input is divided into chunks, feeding the chunks to a fresh
+`MultipartMarkup` gives the markups, error and stopped flag of the byte-at-a-time reference
+machine on the concatenation, whenever that machine is defined on it.  (The machine is
+undefined exactly where the implementation's answer depends on the chunking: a preamble, junk
+after a delimiter, bare CR/LF patterns inside a header block; see `Spec.step`.) -/
+theorem parse_refines_R (boundary : Bytes) (chunks : List Bytes) (o : Obs)
+    (h : run boundary chunks.flatten = some o) : parseChunks boundary chunks = .ok o := by
+  unfold run at h
+  split at h
+  · cases h
+  · next hb =>
+    obtain ⟨s0, hinit, hsim⟩ := init_sim boundary hb
+    cases hr : runFrom (delim boundary) RSt.init chunks.flatten with
+    | none => rw [hr] at h; cases h
+    | some r' =>
+      rw [hr] at h
+      simp only [Option.map_some, Option.some.injEq] at h
+      have := (feed_sim (tokOk_delim boundary hb) chunks s0 RSt.init r' hsim hr).obs
+      unfold parseChunks
+      rw [hinit]
+      simp only [this, h]
+
+/-- **`feed_append` (core).** From any state reached by feeding chunks to a fresh object, feeding
+`a` and then `b` is observably the same as feeding `a ++ b`, provided the reference machine is
+defined on the total input (in particular when the total input is a prefix of a well-formed
+body). -/
+theorem feed_append (boundary : Bytes) (s0 : St) (hs0 : St.init boundary = .ok s0)
+    (chunks0 : List Bytes) (a b : Bytes) (o : Obs)
+    (h : run boundary (chunks0.flatten ++ (a ++ b)) = some o) :
+    (parse (parse (feed s0 chunks0) a) b).obs = (parse (feed s0 chunks0) (a ++ b)).obs := by
+  have h1 : parseChunks boundary (chunks0 ++ [a, b]) = .ok o :=
+    parse_refines_R boundary _ o (by simpa using h)
+  have h2 : parseChunks boundary (chunks0 ++ [a ++ b]) = .ok o :=
+    parse_refines_R boundary _ o (by simpa using h)
+  unfold parseChunks at h1 h2
+  rw [hs0] at h1 h2
+  simp only [feed, List.foldl_append, List.foldl_cons, List.foldl_nil, Except.ok.injEq] at h1 h2
+  simp only [feed]
+  rw [h1, h2]
+
+/-- the reference machine is defined on every prefix of every well-formed body -/
+theorem wf_prefix_defined (boundary : Bytes) (parts : List Part) (epilogue : Bytes)
+    (hwf : WFBody boundary parts) (p : Bytes) (hp : p <+: encodeBody boundary parts epilogue) :
+    ∃ o, run boundary p = some o := by
+  obtain ⟨q, hq⟩ := hp
+  exact run_prefix boundary p q _ (hq ▸ run_encodeBody boundary parts epilogue hwf)
+
+/-- **THE property.**  For every boundary, every well-formed body (any number of parts, header
+lines free of CR/LF, any data not containing the delimiter, any epilogue), every prefix `p` of it
+and every division of `p` into consecutive chunks (any number of chunks, empty ones included):
+parsing the chunks gives the same markups, error and stopped flag as parsing `p` in one piece. -/
+theorem markup_split_independent (boundary : Bytes) (parts : List Part) (epilogue : Bytes)
+    (hwf : WFBody boundary parts) (p : Bytes) (hp : p <+: encodeBody boundary parts epilogue)
+    (chunks : List Bytes) (hc : chunks.flatten = p) :
+    parseChunks boundary chunks = parseChunks boundary [p] := by
+  obtain ⟨o, ho⟩ := wf_prefix_defined boundary parts epilogue hwf p hp
+  rw [parse_refines_R boundary chunks o (by rw [hc]; exact ho),
+    parse_refines_R boundary [p] o (by simpa using ho)]
+
+theorem cutAt_flatten : ∀ (cuts : List Nat) (body : Bytes) (off : Nat), (cutAt body off cuts).flatten = body := by
+  intro cuts
+  induction cuts with
+  | nil => intro body off; simp [cutAt]
+  | cons c cs ih => intro body off; simp [cutAt, ih]
+
+/-- the same with the division given as a list of cut positions -/
+theorem markup_cut_independent (boundary : Bytes) (parts : List Part) (epilogue : Bytes)
+    (hwf : WFBody boundary parts) (p : Bytes) (hp : p <+: encodeBody boundary parts epilogue)
+    (cuts : List Nat) :
+    parseChunks boundary (cutAt p 0 cuts) = parseChunks boundary [p] :=
+  markup_split_independent boundary parts epilogue hwf p hp _ (cutAt_flatten cuts p 0)
+
+/-- the result for a prefix is never an error: an upload never fails because of where a buffer
+boundary fell -/
+theorem wf_prefix_no_error (boundary : Bytes) (parts : List Part) (epilogue : Bytes)
+    (hwf : WFBody boundary parts) (p : Bytes) (hp : p <+: encodeBody boundary parts epilogue)
+    (chunks : List Bytes) (hc : chunks.flatten = p) :
+    ∃ o, parseChunks boundary chunks = .ok o ∧ o.error = none := by
+  obtain ⟨q, hq⟩ := hp
+  have hfull := run_encodeBody boundary parts epilogue hwf
+  rw [← hq] at hfull
+  obtain ⟨o, ho⟩ := run_prefix boundary p q _ hfull
+  refine ⟨o, parse_refines_R boundary chunks o (by rw [hc]; exact ho), ?_⟩
+  -- an error state is absorbing, and the full body ends without error
+  unfold run at ho hfull
+  split at ho
+  · cases ho
+  · rw [runFrom_append] at hfull
+    cases hr : runFrom (delim boundary) RSt.init p with
+    | none => rw [hr] at ho; cases ho
+    | some r =>
+      rw [hr] at ho hfull
+      simp only [Option.map_some, Option.some.injEq, Option.bind_some] at ho hfull
+      rw [← ho]
+      obtain ⟨ph, pos, ss, mks⟩ := r
+      cases ph with
+      | failed e =>
+        rw [runFrom_failed] at hfull
+        simp [RSt.obs] at hfull
+      | _ => rfl
+
+/-- **`section_ranges_exact`.**  A complete well-formed body, in whatever chunks it arrives, is
+marked up as: the empty section before the first boundary, then for every part its header block
+(from after the delimiter line's CRLF to the CRLFCRLF) and its data range (from after the
+CRLFCRLF to the first `CRLF--boundary`); the closing delimiter is seen (`stopped`), no error. -/
+theorem section_ranges_exact (boundary : Bytes) (parts : List Part) (epilogue : Bytes)
+    (hwf : WFBody boundary parts) (chunks : List Bytes)
+    (hc : chunks.flatten = encodeBody boundary parts epilogue) :
+    parseChunks boundary chunks = .ok ⟨expectedMarkups boundary parts, none, true⟩ :=
+  parse_refines_R boundary chunks _ (by rw [hc]; exact run_encodeBody boundary parts epilogue hwf)
 
 end Ombott.Multipart
